@@ -258,7 +258,7 @@ one ended; the value lists them. -/
 theorem C19_array_ok_iff (g : NodeGrammar) (uni : Uni) (fuel : Nat) (inh : Bool) (k : Nat) (x : Node)
     (i : Inp) (m : M) (i' : Inp) (m' : M) (v : Val) :
     parse g uni (fuel+1) inh (.array k x) i m = .ok i' m' v ↔
-      ∃ vs, v = .mk .array vs ∧ vs.length = k ∧ Chain (parse g uni fuel inh x) i m i' m' vs := by
+      ∃ vs, v = .mk .array vs ∧ vs.length = k ∧ ArrayChain (parse g uni fuel inh x) i m i' m' vs := by
   simp only [parse]
   have key := arrayLoop_ok_iff (parse g uni fuel inh x) k i m []
   cases hr : arrayLoop (parse g uni fuel inh x) k i m [] with
@@ -294,7 +294,7 @@ left is that of the failing element. -/
 theorem C19_array_fail_iff (g : NodeGrammar) (uni : Uni) (fuel : Nat) (inh : Bool) (k : Nat) (x : Node)
     (i : Inp) (m : M) (m' : M) :
     parse g uni (fuel+1) inh (.array k x) i m = .fail m' ↔
-      ∃ vs i1 m1, vs.length < k ∧ Chain (parse g uni fuel inh x) i m i1 m1 vs ∧
+      ∃ vs i1 m1, vs.length < k ∧ ArrayChain (parse g uni fuel inh x) i m i1 m1 vs ∧
         parse g uni fuel inh x i1 m1 = .fail m' := by
   simp only [parse]
   rw [← arrayLoop_fail_iff (parse g uni fuel inh x) k i m [] m']
